@@ -42,7 +42,7 @@ func RunCalc(bin string, args []string, stdin []byte, stdinFile string, timeout 
 	case stdin != nil:
 		cmd.Stdin = bytes.NewReader(stdin)
 	}
-	cmd.SysProcAttr = &syscall.SysProcAttr{Setpgid: true}
+	cmd.SysProcAttr = &syscall.SysProcAttr{Setpgid: true, Pdeathsig: syscall.SIGKILL}
 	if err := cmd.Start(); err != nil {
 		res.StartErr = err.Error()
 		return res
